@@ -63,7 +63,84 @@ func init() {
 		}
 		return Ints(out)
 	}
+	// WIDENED (call sequences): New on every range in turn; after rendering [e, Len(e), Cmp(e, copy of previous e)] the
+	// caller scribbles over the whole slice New returned (len and spare capacity): it owns it.
+	Exec["bitstr.Session/scribble"] = func(a []V) string {
+		var out []string
+		var prev []byte
+		for i, r := range a[0].L {
+			e := bitstr.New(r.L[0].Str(), r.L[1].I32(), r.L[2].I32())
+			p := prev
+			if p == nil {
+				p = append([]byte{}, e...)
+			}
+			out = append(out, L(Bytes(e), I32(bitstr.Len(e)), Int(bitstr.Cmp(e, p))))
+			prev = append([]byte{}, e...)
+			j := byte(0x00)
+			if i%2 == 1 {
+				j = junk8
+			}
+			full := e[:cap(e)]
+			for k := range full {
+				full[k] = j
+			}
+		}
+		return L(out...)
+	}
+	// WIDENED (views): both encodings packed back to back into a junk-filled arena and passed as views of it
+	Exec["bitstr.Cmp/packed"] = func(a []V) string {
+		e1, e2 := c09New(a, 0), c09New(a, 3)
+		v, intact := c09Pack(3, 16, e1, e2)
+		r1 := bitstr.Cmp(v[0], v[1])
+		r2 := bitstr.Cmp(v[0], e2)
+		r3 := bitstr.Cmp(e1, v[1])
+		return L(Int(r1), Int(r2), Int(r3), B(intact()))
+	}
+	Exec["bitstr.CmpUpto/packed"] = func(a []V) string {
+		x := a[0].Bytes()
+		e := c09New(a, 1)
+		v, intact := c09Pack(0, 9, x, e)
+		r1 := bitstr.CmpUpto(v[0], v[1])
+		r2 := bitstr.StrCmpUpto(string(x), v[1])
+		return L(Int(r1), Int(r2), B(intact()))
+	}
+	// WIDENED (aliased arguments): the key is a prefix VIEW of the encoding's own buffer, every k
+	Exec["bitstr.CmpUpto/alias"] = func(a []V) string {
+		e := c09New(a, 0)
+		v, intact := c09Pack(2, 5, e)
+		w := v[0]
+		var out []string
+		for k := 0; k <= len(w); k++ {
+			r1 := bitstr.CmpUpto(w[:k], w)
+			r2 := bitstr.CmpUpto(append([]byte{}, w[:k]...), w)
+			r3 := bitstr.StrCmpUpto(string(w[:k]), w)
+			out = append(out, L(Int(r1), Int(r2), Int(r3)))
+		}
+		return L(L(out...), B(intact() && bytes.Equal(w, e)))
+	}
 	Register("C09", genC09)
+}
+
+// c09Pack copies the parts back to back into one arena filled with junk (lead junk bytes before, trail after) and returns
+// the parts as views of the arena (their capacity runs to the arena's end) and a check that the arena is unchanged.
+func c09Pack(lead, trail int, parts ...[]byte) ([][]byte, func() bool) {
+	n := lead + trail
+	for _, p := range parts {
+		n += len(p)
+	}
+	arena := make([]byte, n)
+	for i := range arena {
+		arena[i] = junk8
+	}
+	views := make([][]byte, len(parts))
+	off := lead
+	for i, p := range parts {
+		copy(arena[off:], p)
+		views[i] = arena[off : off+len(p)]
+		off += len(p)
+	}
+	saved := append([]byte{}, arena...)
+	return views, func() bool { return bytes.Equal(arena, saved) }
 }
 
 type c09Range struct {
@@ -131,6 +208,7 @@ func c09PayClass(nbits int) string {
 }
 
 func genC09(g *Gen) {
+	nCmp, nUpto := 0, 0
 	newLen := func(r c09Range, bucket string) {
 		g.Stat(bucket)
 		key := ""
@@ -147,6 +225,10 @@ func genC09(g *Gen) {
 			key = "len/" + key
 		}
 		g.Do("bitstr.Len", L(r.args()), key)
+		if key != "" {
+			key = "alias/" + key[4:]
+		}
+		g.Do("bitstr.CmpUpto/alias", L(r.args()), key)
 	}
 	cmp := func(r1, r2 c09Range, bucket string) {
 		g.Stat(bucket)
@@ -157,6 +239,12 @@ func genC09(g *Gen) {
 				len(b1)%8 == 0, len(b2)%8 == 0, c09PayClass(len(b1)))
 		}
 		g.Do("bitstr.Cmp", L(r1.args(), r2.args()), key)
+		if nCmp++; nCmp%2 == 0 {
+			if key != "" {
+				key = "pk" + key
+			}
+			g.Do("bitstr.Cmp/packed", L(r1.args(), r2.args()), key)
+		}
 	}
 	upto := func(a []byte, r c09Range, bucket string) {
 		g.Stat(bucket)
@@ -190,6 +278,12 @@ func genC09(g *Gen) {
 			key = "via" + key[3:]
 		}
 		g.Do("bitstr.CmpUpto/viaNew", args, key)
+		if nUpto++; nUpto%3 == 0 {
+			if key != "" {
+				key = "pk" + key[3:]
+			}
+			g.Do("bitstr.CmpUpto/packed", args, key)
+		}
 	}
 	// keys sorted by bytes.Compare against one bit string: shape key = how many keys fall before / inside / after the block
 	cnt := func(n int) string {
@@ -317,6 +411,54 @@ func genC09(g *Gen) {
 		sorted(keys, e, "exh-sorted")
 	}
 	g.Exhaust = append(g.Exhaust, "CmpUpto over sorted keys: the 57 plain strings of length 0..2 over the alphabet (sorted) x the 449 bit strings of length 0..16")
+
+	// sessions: New on a sequence of ranges, the caller scribbling over every result.  A fixed pool with the
+	// aligned empty ranges of several strings / offsets, unaligned empty ranges, 1..9 bit strings: all ordered
+	// pairs and sampled longer sequences; random sessions mixing pool ranges with random ones
+	session := func(rs []c09Range, bucket string) {
+		g.Stat(bucket)
+		var xs []string
+		ae := 0
+		for _, r := range rs {
+			xs = append(xs, L(r.args()))
+			if r.f == r.t && r.f%8 == 0 {
+				ae++
+			}
+		}
+		key := fmt.Sprintf("sess/n%s/alignedempty%s", cnt(len(rs)-1), cnt(ae))
+		g.Do("bitstr.Session/scribble", L(L(xs...)), key)
+	}
+	ab := []byte("ab\x00\xff")
+	pool := []c09Range{{nil, 0, 0}, {ab, 0, 0}, {ab, 8, 8}, {ab, 16, 16}, {ab, 32, 32}, {[]byte{0xff}, 8, 8},
+		{ab, 3, 3}, {ab, 9, 9}, {ab, 0, 1}, {ab, 0, 8}, {ab, 5, 12}, {ab, 8, 17}, {ab, 0, 32}, {[]byte{0x80}, 0, 1}}
+	for _, r1 := range pool {
+		for _, r2 := range pool {
+			session([]c09Range{r1, r2}, "exh-session-pairs")
+		}
+	}
+	g.Exhaust = append(g.Exhaust, "Session/scribble: all ordered pairs of a pool of 14 ranges (6 aligned empty, 2 unaligned empty, 6 non-empty)")
+	for q := 0; q < g.N(400, 6000); q++ {
+		n := g.R.Range(3, 8)
+		var rs []c09Range
+		for j := 0; j < n; j++ {
+			if g.R.Intn(3) > 0 {
+				rs = append(rs, pool[g.R.Intn(len(pool))])
+				continue
+			}
+			sx := g.R.Bytes(g.R.Range(0, 10), alphabets[g.R.Intn(len(alphabets))])
+			t := g.R.Intn(8*len(sx) + 1)
+			f := g.R.Intn(t + 1)
+			switch g.R.Intn(3) {
+			case 0:
+				f = t / 8 * 8
+				t = f // aligned empty
+			case 1:
+				f = t / 8 * 8
+			}
+			rs = append(rs, c09Range{sx, f, t})
+		}
+		session(rs, "rand-session")
+	}
 
 	// (2) random pairs sharing prefixes; payload lengths 0..20 bytes (both sides of cmpBytes' 8-byte switch)
 	np := g.N(5000, 120000)
